@@ -54,6 +54,8 @@ fn main() {
 
 fn jobs(args: &[String]) {
     let (mut timeout, mut jitter, mut dump) = (120u64, 1u64, None);
+    // --noref 1: no in-process reference (the caller compares with solo runs in FRESH processes); every J line carries the digest
+    let mut noref = false;
     let mut paths: Vec<String> = vec![];
     let mut threads: Vec<Vec<usize>> = vec![];
     let mut i = 0;
@@ -62,6 +64,7 @@ fn jobs(args: &[String]) {
             "--timeout" => timeout = args[i + 1].parse().unwrap(),
             "--jitter" => jitter = args[i + 1].parse().unwrap(),
             "--dump" => dump = Some(args[i + 1].clone()),
+            "--noref" => noref = args[i + 1] == "1",
             "--paths" => paths = args[i + 1].split(',').map(|s| s.to_string()).collect(),
             "--thread" => threads.push(args[i + 1].split(',').filter_map(|s| s.parse().ok()).collect()),
             _ => {}
@@ -75,6 +78,9 @@ fn jobs(args: &[String]) {
     used.dedup();
     let mut refs: Vec<Option<Art>> = vec![None; paths.len()];
     for &u in &used {
+        if noref {
+            continue;
+        }
         if let Some(Some(s)) = srcs.get(u) {
             let a = compile_all(s, Some(paths[u].clone().into()), 32);
             println!("\n@@REF\t{u}\t{}\t{}\t{}\t{}", paths[u], a.status, a.nontrivial() as u8, a.digest());
@@ -98,16 +104,34 @@ fn jobs(args: &[String]) {
                 let z = (jitter.wrapping_add(t as u64 * 977)).wrapping_mul(0x9E3779B97F4A7C15);
                 std::thread::sleep(Duration::from_micros((z >> 54) % 700));
                 for (j, &u) in list.iter().enumerate() {
-                    let (Some(Some(src)), Some(Some(r))) = (srcs.get(u), refs.get(u)) else { continue };
+                    let Some(Some(src)) = srcs.get(u) else { continue };
                     let a = compile_all(src, Some(paths[u].clone().into()), 32);
-                    let d = diff_fields(r, &a);
-                    if !d.is_empty() {
-                        if let Some(dir) = &dump {
-                            r.dump(dir, &format!("ref.{u}"));
-                            a.dump(dir, &format!("t{t}.j{j}.{u}"));
+                    let (same, d) = match refs.get(u) {
+                        Some(Some(r)) => {
+                            let d = diff_fields(r, &a);
+                            if !d.is_empty() {
+                                if let Some(dir) = &dump {
+                                    r.dump(dir, &format!("ref.{u}"));
+                                    a.dump(dir, &format!("t{t}.j{j}.{u}"));
+                                }
+                            }
+                            (if d.is_empty() { "1" } else { "0" }, d)
                         }
-                    }
-                    lines.push(format!("\n@@J\t{t}\t{j}\t{}\t{}\t{}\t{}", paths[u], d.is_empty() as u8, a.status, d.join(",")));
+                        _ => {
+                            if let Some(dir) = &dump {
+                                a.dump(dir, &format!("t{t}.j{j}.{u}"));
+                            }
+                            ("-", vec![])
+                        }
+                    };
+                    lines.push(format!(
+                        "\n@@J\t{t}\t{j}\t{}\t{same}\t{}\t{}\t{}\t{}",
+                        paths[u],
+                        a.status,
+                        d.join(","),
+                        a.nontrivial() as u8,
+                        a.digest()
+                    ));
                 }
                 let _ = tx.send((t, lines));
             })
